@@ -51,6 +51,43 @@ def hasher_rules(ctx, P):
             lits.setdefault(c, []).append(i)
     ctx.check(P + ':hasher:literals', 'R-table', 'the literals fed by hash_buf are exactly CR LF, CR and LF', set(lits) == {'\\r\\n', '\\r', '\\n'}, function=b.path,
               table={k: len(v) for k, v in lits.items()})
+    # octets that are not literals are copied from the chunk only up to the position the scan reported (never a fixed-size piece
+    # that could contain a line-break octet)
+    def slice_of(o):
+        # ('whole', None) | ('slice', [range bound operands]) | ('other', None): follow references to the defining Index::index call
+        for _ in range(6):
+            k, v = resolve_value(b, o, defs)
+            if k == 'call' and v['f'].get('fn', '').endswith('ops::Index::index'):
+                kk, rv = resolve_value(b, v['args'][1], defs)
+                if kk == 'rv' and rv['k'] == 'agg':
+                    return ('slice', rv['o'])
+                return ('other', None)
+            if k == 'rv' and v['k'] == 'ref':
+                o = dict(l=v['p']['l'], pr=[x for x in v['p']['pr'] if x != '*'], mv=0)
+                continue
+            if k == 'rv' and v['k'] == 'cast':
+                o = v['o'][0]
+                continue
+            if k == 'place':
+                return ('whole', None)
+            return ('other', None)
+        return ('other', None)
+    sliced, whole, bad = [], [], []
+    for i, t in ups:
+        if const_bytes(b, t['args'][1], defs) is not None:
+            continue
+        kind, bounds = slice_of(t['args'][1])
+        if kind == 'whole':
+            whole.append(i)
+        elif kind == 'slice':
+            sliced.append((i, t))
+            # a bound that is a constant cuts a fixed-size piece out of the chunk; it must be the position reported by the scan
+            if any(resolve_value(b, o, defs)[0] == 'const' for o in bounds) or not any(has_origin(b.operand_origins(o), r'call:.*::position$') for o in bounds):
+                bad.append(i)
+        else:
+            bad.append(i)
+    ctx.check(P + ':hasher:data-up-to-scan-position', 'R-dom', 'hash_buf copies chunk data either whole (binary mode / no line-break octet found) or up to the reported position of the next CR or LF',
+              bool(sliced) and not bad and len(whole) <= 2, function=b.path, site=site(b, bad[0]) if bad else None, table=dict(sliced=len(sliced), whole=len(whole)))
     # carry discipline
     sw = [i for i, t in b.switches() if has_origin(b.switch_origins(i), r'field:NormalizingHasher\.last_was_cr$') and not has_origin(b.switch_origins(i), r'call:')]
     clears = [i for i, k, s in b.stmts(lambda s: s['d']['pr'] and s['d']['pr'][-1].endswith('.last_was_cr') and s['r']['k'] == 'use'
@@ -102,6 +139,11 @@ def reader_rules(ctx, P):
         ctx.check(P + ':reader:settles-with-cr', 'R-table', 'a held-back CR that is not followed by LF is emitted as CR', len(puts) == 1, function=b.path)
     b = ctx.body(NR + 'fill_buffer')
     if b is not None:
+        oks = ok_exit_blocks(b)
+        clb = call_blocks(b, r'NormalizedReader::<R>::cleanup_buffer$')
+        okc, witc = must_pass(b, oks, clb) if clb else (False, None)
+        ctx.check(P + ':reader:every-fill-is-cleaned-up', 'R-dom', 'fill_buffer returns Ok only through cleanup_buffer (also for an empty read: a held-back CR is settled there)', okc, function=b.path,
+                  witness=fmt_path(b, witc) if witc else None)
         fills = call_blocks(b, r'util::fill_buffer$')
         cl = b.calls(r'NormalizedReader::<R>::cleanup_buffer$')
         good = False
